@@ -5,7 +5,7 @@ import json
 
 from ..harness import Shard, rng_for, h64, schema_shape, printable, guard, exc_name
 from ..gen.schema import gen_schema
-from ..ref import schema as RS
+from ..ref import schema as RS, pcf as RP
 from ..ref.schema import PRIMS, split_name
 
 PID = "C11"
@@ -33,12 +33,21 @@ N = {"quick": 120000, "thorough": 2400000}
 TIME_LIMIT = {"quick": 40, "thorough": 480}
 SHARDS = 16
 REACH = {
-    "quick": {"valid_accepted": 5000, "names_checked": 20000, "refs_checked": 5000, "mutants_rejected": 10000,
+    "quick": {"parsed_output_reinterpreted": 10000, "valid_accepted": 5000, "names_checked": 20000, "refs_checked": 5000, "mutants_rejected": 10000,
               "ns_attr": 100, "ns_dotted": 100, "ns_inherited": 100,
               "mut_undefined_ref": 300, "mut_duplicate_name": 300, "mut_name_deleted": 300, "mut_bad_symbol": 300,
               "mut_enum_default": 100, "mut_field_default": 300, "mut_decimal": 300, "mut_depth3": 300},
     "thorough": {"valid_accepted": 100000},
 }
+
+
+def undunder(n):
+    """The parsed schema without fastavro's private '__...' keys."""
+    if isinstance(n, list):
+        return [undunder(b) for b in n]
+    if isinstance(n, dict):
+        return {k: undunder(v) if k in ("type", "items", "values", "fields") else v for k, v in n.items() if not k.startswith("__")}
+    return n
 
 
 def plan(tier, seed):
@@ -347,6 +356,15 @@ def run_shard(spec):
             if d.get("name") != full:
                 sh.violation("named-schema-dictionary-differs", "entry %r holds a schema named %r" % (full, d.get("name")), info)
                 return False
+        # the returned schema, read as schema JSON by the specification's rules, denotes the same schema
+        try:
+            back = RP.pcf(undunder(parsed))
+        except Exception as e:
+            back = "not a schema: %s" % exc_name(e)
+        if back != RP.pcf(js):
+            sh.violation("parsed-output-denotes-another-schema", "canonical form of the returned schema %s, of the input %s" % (back[:300], RP.pcf(js)[:300]), info)
+            return False
+        sh.count("parsed_output_reinterpreted")
         sh.count("valid_accepted")
         sh.count("names_checked", stats["names"])
         sh.count("refs_checked", stats["refs"])
